@@ -16,6 +16,7 @@ class ProjectResultRegistry(ProjectRegistry):
     """A registry for results."""
 
     result_pattern = re.compile(r".+_run_\d{4}$")
+    run_specifier_pattern = re.compile(r"_run_\d{4}$")
 
     def __init__(self, directory: Path):
         """Initialize a result registry.
